@@ -425,7 +425,11 @@ func (env *Env) eval(e *Expr) Term {
 			body := n.eval(e.Args[2])
 			rng := and(app("<=", lo.S, v), app("<", v, hi.S))
 			if e.Op == "forall" {
-				return mk(fmt.Sprintf("(forall ((%s Int)) %s)", v, implies(and(append([]string{rng}, qf...)...), body.S)), SBool)
+				inner := implies(and(append([]string{rng}, qf...)...), body.S)
+				if pats := eltPatterns(inner, v); pats != "" {
+					return mk(fmt.Sprintf("(forall ((%s Int)) (! %s %s))", v, inner, pats), SBool)
+				}
+				return mk(fmt.Sprintf("(forall ((%s Int)) %s)", v, inner), SBool)
 			}
 			return mk(fmt.Sprintf("(exists ((%s Int)) %s)", v, and(append(append([]string{rng}, qf...), body.S)...)), SBool)
 		}
@@ -840,6 +844,36 @@ func (env *Env) call(e *Expr) Term {
 	case "callargs":
 		vc.callLogDecl()
 		return mk(app("select", vc.get(env.heap(), "Gcalls_args"), argT(0).S), SSlice).withType(types.NewSlice(env.resolveType("object.Object")))
+	case "existed":
+		// allocated before the old state (function entry / start of the iteration)
+		x := argT(0)
+		if env.old == nil {
+			efail("existed() needs an old state")
+		}
+		oh := env.old
+		if env.oldIsPre {
+			oh = env.pre
+		}
+		vc.compDecl("$alloc", SInt)
+		r := x.S
+		if x.Sort == SIface {
+			r = app("i.val", x.S)
+		} else if x.Sort == SSlice {
+			r = app("s.arr", x.S)
+		}
+		return mk(and(app("<", "0", r), app("<=", r, vc.get(oh, "$alloc"))), SBool)
+	case "objRowUnchanged":
+		// the []object.Object backing array with id a has the same contents as in the old state
+		a := argT(0)
+		oh := env.old
+		if env.oldIsPre {
+			oh = env.pre
+		}
+		if oh == nil {
+			efail("objRowUnchanged needs an old state")
+		}
+		comp, _ := vc.elemComp(env.resolveType("object.Object"))
+		return mk(eq(app("select", vc.get(env.heap(), comp), a.S), app("select", vc.get(oh, comp), a.S)), SBool)
 	case "toiface":
 		// the interface value holding pointer x (as MakeInterface builds it)
 		x := argT(0)
@@ -1035,4 +1069,34 @@ func (env *Env) recCall(sf *SpecFn, e *Expr) Term {
 		args = append(args, a.S)
 	}
 	return mk(app(rd.sym, args...), rd.ret).withType(rd.retT)
+}
+
+// eltPatterns: triggers for a quantifier over slice positions: every read (elt_X row off v) of the
+// bound position v, and the equivalent array read (select row (+ off v)), so that the fact is also
+// instantiated for reads of a row that was updated with store.
+func eltPatterns(body, v string) string {
+	root := parseSx(body)
+	if root == nil {
+		return ""
+	}
+	root.annotate(map[string]bool{v: true})
+	seen := map[string]bool{}
+	var pats []string
+	var walk func(n *sx)
+	walk = func(n *sx) {
+		if len(n.kids) == 4 && n.kids[0].kids == nil && strings.HasPrefix(n.kids[0].atom, "elt_") && n.kids[3].kids == nil && n.kids[3].atom == v && !n.kids[1].bound && !n.kids[2].bound {
+			if !seen[n.str] {
+				seen[n.str] = true
+				pats = append(pats, fmt.Sprintf(":pattern (%s) :pattern ((select %s (+ %s %s)))", n.str, n.kids[1].str, n.kids[2].str, v))
+			}
+		}
+		for _, k := range n.kids {
+			walk(k)
+		}
+	}
+	walk(root)
+	if len(pats) == 0 || len(pats) > 3 {
+		return ""
+	}
+	return strings.Join(pats, " ")
 }
